@@ -765,7 +765,8 @@ Proof.
                       | ChInsertFirst => insert_first p w
                       | ChInsertLast => insert_last fuel p w
                       | ChRemove => hremove fuel p w ;;; upd w (fun c => set_parent c None) ;;;
-                                    cp <- getw p ;; (if ptr_eqb (w_focus cp) (Some w) then setw p (set_focus cp None) else ret tt)
+                                    cp <- getw p ;; (if ptr_eqb (w_focus cp) (Some w)
+                                                     then setw p (set_focus cp None) ;;; focus_chain_changed fuel (Some p) else ret tt)
                       | ChRaise => hraise fuel p w
                       | ChRaiseFront => hremove fuel p w ;;; insert_first p w
                       | ChLower => hlower fuel p w
